@@ -94,3 +94,151 @@ E.extend([
  ('C14', 'break', P, "            if isinstance(seg, Arc):\n                bezier_path_approximation += seg2lines(seg)", "            if isinstance(seg, Line):\n                bezier_path_approximation += seg2lines(seg)", 'arcs integrated raw'),
  ('C14', 'benign', P, "                integrand = x*dy\n", "                integrand = -imag(seg.poly())*real(seg.poly()).deriv()\n", 'use the -y dx Green form instead of x dy'),
 ])
+
+# ---------------------------------------------------------------- C01
+E.extend([
+ ('C01', 'break', P, "                    _seg_end = segment.end - seg_start\n                else:\n                    _seg_end = segment.end\n                args = (segment.radius.real,", "                    _seg_end = segment.end\n                else:\n                    _seg_end = segment.end\n                args = (segment.radius.real,", 'relative arc end point not offset'),
+ ('C01', 'break', P, "                parts.append('L {},{}'.format(_seg_end.real, _seg_end.imag))", "                parts.append('L {:.6g},{:.6g}'.format(_seg_end.real, _seg_end.imag))", 'precision-limiting format spec'),
+ ('C01', 'break', P, "                    args = (_seg_control2.real, _seg_control2.imag,\n                            _seg_end.real, _seg_end.imag)\n                    parts.append('S {},{} {},{}'.format(*args))", "                    args = (_seg_control2.imag, _seg_control2.real,\n                            _seg_end.real, _seg_end.imag)\n                    parts.append('S {},{} {},{}'.format(*args))", 'S operands real/imag swapped'),
+ ('C01', 'break', P, "            current_pos = segment.end\n            previous_segment = segment", "            previous_segment = segment", 'pen position not carried'),
+ ('C01', 'break', P, "                    parts.append('T {},{}'.format(*args))", "                    parts.append('Q {},{}'.format(*args))", 'wrong letter for the smooth quadratic'),
+ ('C01', 'break', P, "            if self_closed and isinstance(self[-1], Line):\n                segments = self[:-1]", "            if self_closed:\n                segments = self[:-1]", 'Z replaces a closing curve (F01 reverted)'),
+ ('C01', 'break', P, "                args = (segment.radius.real, segment.radius.imag,\n                        segment.rotation,int(segment.large_arc),\n                        int(segment.sweep),_seg_end.real, _seg_end.imag)", "                args = (segment.radius.real, segment.radius.imag,\n                        segment.rotation,int(segment.sweep),\n                        int(segment.large_arc),_seg_end.real, _seg_end.imag)", 'arc flags swapped'),
+ ('C01', 'benign', P, "                if rel:\n                    _seg_end = segment.end - seg_start\n                else:\n                    _seg_end = segment.end\n                parts.append('L {},{}'.format(_seg_end.real, _seg_end.imag))", "                line_end = (segment.end - seg_start) if rel else segment.end\n                parts.append('L {},{}'.format(line_end.real, line_end.imag))", 'conditional expression and renamed local'),
+])
+
+# ---------------------------------------------------------------- C02
+E.extend([
+ ('C02', 'break', P, "                pos = float(x) + current_pos.imag * 1j\n                if not absolute:\n                    pos += current_pos.real", "                pos = float(x) + current_pos.imag * 1j\n                if not absolute:\n                    pos += current_pos.imag", 'relative H adds the wrong coordinate'),
+ ('C02', 'break', P, "                    control1 = current_pos + current_pos - segments[-1].control2", "                    control1 = current_pos + current_pos - segments[-1].control1", 'S reflects the wrong control point'),
+ ('C02', 'break', P, "                if last_command is None or last_command not in 'QT':", "                if last_command is None or last_command not in 'Q':", 'T after T loses the reflection'),
+ ('C02', 'break', P, "                # when M is called, reset start_pos\n                # This behavior of Z is defined in svg spec:\n                # http://www.w3.org/TR/SVG/paths.html#PathDataClosePathCommand\n                start_pos = current_pos\n", "", 'moveto does not reset the subpath start'),
+ ('C02', 'break', P, "                self._closed = True\n                current_pos = start_pos", "                self._closed = True", 'closepath does not return the pen'),
+ ('C02', 'break', P, "                segments.append(CubicBezier(current_pos, control1, control2, end))\n                current_pos = end\n\n            elif command == 'S':", "                segments.append(CubicBezier(current_pos, control2, control1, end))\n                current_pos = end\n\n            elif command == 'S':", 'C constructor argument order'),
+ ('C02', 'break', P, "                if radius.real == 0 or radius.imag == 0:", "                if radius.real == 0 and radius.imag == 0:", 'zero-radius arc rule needs both radii zero'),
+ ('C02', 'break', P, "                if last_command is None or last_command not in 'CS':", "                if last_command not in 'CS':", 'S after Z raises TypeError (F02 reverted)'),
+ ('C02', 'break', P, 'FLOAT_RE = re.compile(r"[-+]?[0-9]*\\.?[0-9]+(?:[eE][-+]?[0-9]+)?")', 'FLOAT_RE = re.compile(r"[-+]?[0-9]*\\.?[0-9]+(?:[e][-+]?[0-9]+)?")', 'upper-case exponent no longer lexed'),
+ ('C02', 'break', P, "            elif command in ('A', 'a'):\n                pos = 0", "            elif command in ('A',):\n                pos = 0", 'arc-aware tokenising only for upper-case A'),
+ ('C02', 'benign', P, "                pos = float(x) + float(y) * 1j\n                if not absolute:\n                    pos += current_pos\n                segments.append(Line(current_pos, pos))\n                current_pos = pos\n\n            elif command == 'H':", "                target = complex(float(x), float(y))\n                if not absolute:\n                    target = target + current_pos\n                segments.append(Line(current_pos, target))\n                current_pos = target\n\n            elif command == 'H':", 'rename pos and build the complex differently'),
+])
+
+# ---------------------------------------------------------------- C05
+E.extend([
+ ('C05', 'break', P, "                t = (T - T0)/seg_length", "                t = (T - T0)/T1", 'T2t divides by the cumulative fraction'),
+ ('C05', 'break', P, "        segment_start = sum(self._lengths[:seg_idx])", "        segment_start = sum(self._lengths[:seg_idx + 1])", 't2T slice off by one'),
+ ('C05', 'break', P, "        if T == 1:\n            return len(self)-1, 1", "        if T == 1:\n            return len(self), 1", 'T2t(1) index off by one'),
+ ('C05', 'break', P, "            self._lengths = [each / self._length for each in lengths]", "            self._lengths = [each / len(lengths) for each in lengths]", 'fractions not normalised by the total'),
+ ('C05', 'break', P, "                subpaths.append(Path(*self[subpath_start: i+1]))\n                subpath_start = i+1", "                subpaths.append(Path(*self[subpath_start: i+1]))\n                subpath_start = i", 'continuous_subpaths duplicates a segment'),
+ ('C05', 'break', P, "        return all(self[i].end == self[i+1].start for i in range(len(self) - 1))", "        return all(self[i].end == self[i+1].start for i in range(len(self) - 2))", 'iscontinuous ignores the last joint'),
+ ('C05', 'benign', P, "            T1 = T0 + seg_length  # the T-value the current segment ends on\n            if T1 >= T:", "            T1 = seg_length + T0\n            if T <= T1:", 'mirror the comparison'),
+])
+
+# ---------------------------------------------------------------- C06
+E.extend([
+ ('C06', 'break', P, "            s = quad(lambda tau: abs(self.derivative(tau)), t0, t1,\n                            epsabs=error, limit=1000)[0]", "            s = quad(lambda tau: abs(self.derivative(tau)), 0, t1,\n                            epsabs=error, limit=1000)[0]", 'cubic quadrature ignores t0'),
+ ('C06', 'break', P, "    mid = (start + end)/2\n    mid_point = curve.point(mid)", "    mid = (start + end)/2\n    mid_point = curve.point(start)", 'chord recursion evaluates the wrong point'),
+ ('C06', 'break', P, "        return (segment_length(curve, start, mid, start_point, mid_point,\n                               error, min_depth, depth) +", "        return (segment_length(curve, start, mid, start_point, end_point,\n                               error, min_depth, depth) +", 'first half handed the wrong end point'),
+ ('C06', 'break', P, "            return (self[idx0].length(t0=t0) +\n                    sum(self[idx].length() for idx in range(idx0 + 1, idx1)) +", "            return (self[idx0].length(t0=t0) +\n                    sum(self[idx].length() for idx in range(idx0 + 1, idx1 + 1)) +", 'last segment counted twice'),
+ ('C06', 'break', P, "            beta = c1 / (2 * c2)", "            beta = c1 / c2", 'closed form: wrong completion of the square'),
+ ('C06', 'break', P, "                    return abs(a) * (t1 ** 2 + t0 ** 2) - abs(b) * (t1 + t0) + \\\n                           abs(b) ** 2 / (2 * abs(a))", "                    return abs(a) * (t1 ** 2 + t0 ** 2) - abs(b) * (t1 + t0) + \\\n                           abs(b) ** 2 / (4 * abs(a))", 'fold-back integral constant'),
+ ('C06', 'break', P, "        return abs(self.end - self.start)*(t1-t0)", "        return abs(self.end - self.start)*t1", 'Line.length ignores t0'),
+ ('C06', 'benign', P, "    length2 = first_half + second_half\n    if (length2 - length > error) or (depth < min_depth):", "    two_chords = first_half + second_half\n    length2 = two_chords\n    if (depth < min_depth) or (length2 - length > error):", 'reorder the recursion test'),
+])
+
+# ---------------------------------------------------------------- C07
+E.extend([
+ ('C07', 'break', P, "    if not 0 <= s <= curve_length:\n        raise ValueError(\"s is not in interval [0, curve.length()].\")", "    if not 0 <= s:\n        raise ValueError(\"s is not in interval [0, curve.length()].\")", 'no error for s > L'),
+ ('C07', 'break', P, "    if s == curve_length:\n        return 1", "    if s == curve_length:\n        return 0", 'ilength(L) returns 0'),
+ ('C07', 'break', P, "            iteration += 1\n            t = (t_lower + t_upper)/2", "            t = (t_lower + t_upper)/2", 'loop counter never incremented'),
+ ('C07', 'break', P, "                t = inv_arclength(curve[k], s - lsum, s_tol=s_tol,", "                t = inv_arclength(curve[k], s, s_tol=s_tol,", 'consumed length not subtracted'),
+ ('C07', 'break', P, "        return inv_arclength(self, s, s_tol=s_tol, maxits=maxits, error=error,\n                             min_depth=min_depth)\n\n    def joins_smoothly_with(self, previous, wrt_parameterization=False,\n                            error=0):\n        \"\"\"Checks if this segment joins smoothly with previous segment.  By\n        default, this only checks that this segment starts moving (at t=0) in\n        the same direction (and from the same positive) as previous stopped\n        moving (at t=1).  To check if the tangent magnitudes also match, set\n        wrt_parameterization=True.\"\"\"\n        if wrt_parameterization:\n            return self.start == previous.end and abs(\n                self.derivative(0) - previous.derivative(1)) <= error\n        else:\n            return self.start == previous.end and abs(\n                self.unit_tangent(0) - previous.unit_tangent(1)) <= error\n\n    def derivative(self, t, n=1):\n        \"\"\"returns the nth derivative of the segment at t.\"\"\"", "        return inv_arclength(self, s, s_tol=s_tol, maxits=maxits,\n                             min_depth=min_depth)\n\n    def joins_smoothly_with(self, previous, wrt_parameterization=False,\n                            error=0):\n        \"\"\"Checks if this segment joins smoothly with previous segment.  By\n        default, this only checks that this segment starts moving (at t=0) in\n        the same direction (and from the same positive) as previous stopped\n        moving (at t=1).  To check if the tangent magnitudes also match, set\n        wrt_parameterization=True.\"\"\"\n        if wrt_parameterization:\n            return self.start == previous.end and abs(\n                self.derivative(0) - previous.derivative(1)) <= error\n        else:\n            return self.start == previous.end and abs(\n                self.unit_tangent(0) - previous.unit_tangent(1)) <= error\n\n    def derivative(self, t, n=1):\n        \"\"\"returns the nth derivative of the segment at t.\"\"\"", 'Arc.ilength drops the error argument'),
+ ('C07', 'break', P, "            elif t == t_lower or t == t_upper:", "            elif t_lower == t_upper:", 'stall test only for a collapsed bracket (F05 class)'),
+ ('C07', 'benign', P, "            if abs(s_t - s) < s_tol:\n                return t\n            elif t == t_lower or t == t_upper:", "            if abs(s_t - s) < s_tol:\n                return t\n            elif t in (t_lower, t_upper):", 'tuple membership instead of two comparisons'),
+])
+
+# ---------------------------------------------------------------- C08
+E.extend([
+ ('C08', 'break', B, "            delta = a[1]**2 - (a[0] + a[1])*a[2] + a[2]**2 + (a[0] - a[1])*a[3]", "            delta = a[1]**2 - (a[0] + a[1])*a[2] + a[2]**2 + (a[0] + a[1])*a[3]", 'wrong discriminant'),
+ ('C08', 'break', B, "                tau = a[0] - 2*a[1] + a[2]", "                tau = a[0] - 2*a[1] - a[2]", 'wrong centre of the roots'),
+ ('C08', 'break', B, "    local_extremizers = [0, 1]\n    if len(p) == 4:  # cubic case", "    local_extremizers = [0]\n    if len(p) == 4:  # cubic case", 'end point t=1 dropped from the candidates'),
+ ('C08', 'break', B, "            return min(local_extrema), max(local_extrema)\n\n    # find reverse", "            return max(local_extrema), min(local_extrema)\n\n    # find reverse", 'min/max slots swapped'),
+ ('C08', 'break', B, "    x_extremizers = [0, 1] + polyroots(dx, realroots=True,\n                                    condition=lambda r: 0 < r < 1)", "    x_extremizers = [0, 1] + polyroots(dy, realroots=True,\n                                    condition=lambda r: 0 < r < 1)", 'x extrema taken from dy'),
+ ('C08', 'break', P, "            atan_x = atan(-(ry/rx)*tan(self.phi))", "            atan_x = atan((ry/rx)*tan(self.phi))", 'sign of the x critical angle'),
+ ('C08', 'break', P, "        for k in range(-4, 5):", "        for k in range(-1, 2):", 'k range too small'),
+ ('C08', 'break', P, "        xtrema = [self.start.real, self.end.real]", "        xtrema = [self.start.real]", 'arc end point not a candidate'),
+ ('C08', 'break', P, "        xmin = min(self.start.real, self.end.real)\n        xmax = max(self.start.real, self.end.real)", "        xmin = min(self.start.real, self.end.real)\n        xmax = max(self.start.imag, self.end.imag)", 'Line.bbox mixes coordinates'),
+ ('C08', 'break', P, "        xmin = min(xmins)\n        xmax = max(xmaxs)\n        ymin = min(ymins)\n        ymax = max(ymaxs)\n        return xmin, xmax, ymin, ymax\n\n    def cropped", "        xmin = min(xmins)\n        xmax = max(xmaxs)\n        ymin = max(ymins)\n        ymax = max(ymaxs)\n        return xmin, xmax, ymin, ymax\n\n    def cropped", 'Path.bbox takes max of ymins'),
+ ('C08', 'benign', B, "                r1 = (tau + sqdelta)/denom\n                r2 = (tau - sqdelta)/denom\n                if 0 < r1 < 1:\n                    local_extremizers.append(r1)\n                if 0 < r2 < 1:\n                    local_extremizers.append(r2)", "                for root in ((tau + sqdelta)/denom, (tau - sqdelta)/denom):\n                    if 0 < root < 1:\n                        local_extremizers.append(root)", 'loop over the two roots'),
+])
+
+# ---------------------------------------------------------------- C11 / C12
+E.extend([
+ ('C11', 'break', P, "        elif isinstance(other_seg, CubicBezier):\n            t2t1s = bezier_by_line_intersections(other_seg, self)\n            return [(t1, t2) for t2, t1 in t2t1s]", "        elif isinstance(other_seg, CubicBezier):\n            t2t1s = bezier_by_line_intersections(other_seg, self)\n            return t2t1s", 'Line x Cubic result not swapped back'),
+ ('C11', 'break', P, "            return [(t1, t2) for t2, t1 in other_seg.intersect(self)]", "            return other_seg.intersect(self)", 'Cubic x Arc result not swapped back'),
+ ('C11', 'break', P, "            t1 = (c[0]*(b[0] - d[1]) -\n                  c[1]*(b[0] - d[0]) -\n                  a[0]*(d[0] - d[1]))/denom", "            t1 = (c[0]*(b[0] - d[1]) -\n                  c[1]*(b[0] - d[0]) +\n                  a[0]*(d[0] - d[1]))/denom", 'Line-Line closed form sign'),
+ ('C11', 'break', P, "            if 0 <= t1 <= 1 and 0 <= t2 <= 1:\n                return [(t1, t2)]", "            if 0 <= t1 <= 1:\n                return [(t1, t2)]", 'second parameter not range-tested'),
+ ('C11', 'break', P, "                    T2 = path2.t2T(seg2, t2)", "                    T2 = path1.t2T(seg2, t2)", 'T2 mapped through the wrong path'),
+ ('C11', 'break', P, "        return x/self.radius.real + 1j*y/self.radius.imag", "        return x/self.radius.real + 1j*y/self.radius.real", 'u1transform scales y by rx'),
+ ('C11', 'break', P, "                x1 = (-(a * a * m * c) + x_sqrt) / denominator ", "                x1 = (-(a * a * m * c) - x_sqrt) / denominator ", 'Arc-Line closed form: both x roots take the same sign'),
+ ('C11', 'break', P, "                    val = b * sqrt(discriminant)", "                    val = a * sqrt(discriminant)", 'vertical line: y candidates scaled by the x radius'),
+ ('C12', 'break', P, "            k = domain_lower_limit // 360", "            k = 0", 'phase shift ignores the domain'),
+ ('C12', 'break', B, "        if 0 <= xval <= line_length:", "        if 0 < xval < line_length:", 'abscissa filter open'),
+ ('C12', 'break', P, "            degs = _deg(psi, domain_lower_limit=self.theta + self.delta)", "            degs = _deg(psi, domain_lower_limit=self.theta)", 'clockwise arcs use the wrong interval (F09 reverted)'),
+ ('C12', 'break', 'polytools.py', "    for (idx1, r1), (idx2, r2) in combinations(enumerate(roots), 2):\n        if isclose(r1, r2):\n            duplicates.append(idx2)", "    for idx, (r1, r2) in enumerate(combinations(roots, 2)):\n        if isclose(r1, r2):\n            duplicates.append(idx)", 'pair index used as root index (F10 reverted)'),
+])
+
+# ---------------------------------------------------------------- C13
+E.extend([
+ ('C13', 'break', P, "    extremizers = [0, 1] + polyroots01(r_squared.deriv())", "    extremizers = [0, 1] + polyroots01(r_squared)", 'roots of the distance instead of its derivative'),
+ ('C13', 'break', P, "    extremizers = [0, 1] + polyroots01(r_squared.deriv())", "    extremizers = [0] + polyroots01(r_squared.deriv())", 'end point t=1 not a candidate'),
+ ('C13', 'break', P, "        seg_global_max = max(extrema, key=itemgetter(0))", "        seg_global_max = max(extrema, key=itemgetter(1))", 'maximum taken by parameter'),
+ ('C13', 'break', P, "            if d0 < d1:\n                return (dt, t), (d1, 1)\n            return (dt, t), (d0, 0)", "            if d0 < d1:\n                return (dt, t), (d0, 0)\n            return (dt, t), (d1, 1)", 'Line.radialrange returns the nearer end as maximum'),
+ ('C13', 'break', P, "        numerator, denominator = dx * (x - x0) + dy * (y - y0), dx * dx + dy * dy", "        numerator, denominator = dx * (x - x0) - dy * (y - y0), dx * dx + dy * dy", 'projection formula sign'),
+ ('C13', 'break', P, "                if seg_global_max[0] > global_max[0]:\n                    global_max = seg_global_max + (seg_idx,)", "                if seg_global_max[0] > global_min[0]:\n                    global_max = seg_global_max + (seg_idx,)", 'max fold compares with the running minimum'),
+ ('C13', 'break', P, "    return path.radialrange(pt)[1]", "    return path.radialrange(pt)[0]", 'farthest_point_in_path returns the closest'),
+])
+
+# ---------------------------------------------------------------- C15
+E.extend([
+ ('C15', 'break', P, "        return -1j * self.unit_tangent(t)", "        return 1j * self.unit_tangent(t)", 'CubicBezier.normal rotated the wrong way'),
+ ('C15', 'break', P, "        kappa = abs(dx*ddy - dy*ddx)/sqrt(dx*dx + dy*dy)**3", "        kappa = abs(dx*ddy + dy*ddx)/sqrt(dx*dx + dy*dy)**3", 'curvature numerator sign'),
+ ('C15', 'break', P, "        return abs(dx*ddy - dy*ddx)/(dx*dx + dy*dy)**1.5", "        return abs(dx*ddy - dy*ddx)/(dx*dx + dy*dy)**2", 'Path.curvature exponent'),
+ ('C15', 'break', P, "        return seg.derivative(t, n=n)/seg.length()**n", "        return seg.derivative(t, n=n)/seg.length()", 'Path.derivative rescaling'),
+ ('C15', 'break', P, "        unit_tangent = dseg/abs(dseg)\n    except", "        unit_tangent = dseg/abs(dseg)**2\n    except", 'tangent not normalised'),
+ ('C15', 'break', P, "        g2 = (dx*dx + dy*dy)**3", "        g2 = (dx*dx + dy*dy)**2", 'singular curvature denominator'),
+])
+
+# ---------------------------------------------------------------- C17 / C18
+PA = 'parser.py'
+E.extend([
+ ('C17', 'break', PA, "        transform[0:2, 0:3] = np.array([values[0:6:2], values[1:6:2]])", "        transform[0:2, 0:3] = np.array([values[0:3], values[3:6]])", 'matrix(...) read row-major'),
+ ('C17', 'break', PA, "        y_scale = values[1] if (len(values) > 1) else x_scale", "        y_scale = values[1] if (len(values) > 1) else 1", 'scale(s) leaves y unscaled'),
+ ('C17', 'break', PA, "        transform = tf_offset.dot(tf_rotate).dot(tf_offset_neg)", "        transform = tf_offset_neg.dot(tf_rotate).dot(tf_offset)", 'rotate about a centre: offsets in the wrong order'),
+ ('C17', 'break', PA, "        transform[0, 1] = np.tan(values[0] * np.pi / 180.0)", "        transform[1, 0] = np.tan(values[0] * np.pi / 180.0)", 'skewX writes the skewY entry'),
+ ('C17', 'break', PA, "        total_transform = total_transform.dot(_parse_transform_substr(substr))", "        total_transform = _parse_transform_substr(substr).dot(total_transform)", 'transform list composed right to left'),
+ ('C17', 'break', 'document.py', "        return StackElement(element, last_tf.dot(\n            parse_transform(element.get('transform'))))", "        return StackElement(element, parse_transform(element.get('transform')).dot(\n            last_tf))", 'Document composes child.dot(parent)'),
+ ('C17', 'break', 'svg_to_paths.py', "        d += \"L {} {} \".format(x+w, y+h-ry)  # above p2", "        d += \"L {} {} \".format(x+w, y+h-rx)  # above p2", 'rounded rect uses rx for a vertical offset'),
+ ('C17', 'break', 'svg_to_paths.py', "    d += 'a' + str(rx) + ',' + str(ry) + ' 0 1,0 ' + str(-2 * rx) + ',0'", "    d += 'a' + str(rx) + ',' + str(ry) + ' 0 1,1 ' + str(-2 * rx) + ',0'", 'second half ellipse retraces the first'),
+ ('C17', 'break', 'svg_to_paths.py', "    x1, y1 = x + w, y\n    x2, y2 = x + w, y + h", "    x1, y1 = x + w, y\n    x2, y2 = x + h, y + w", 'plain rect corner'),
+ ('C17', 'break', 'svg_io_sax.py', "                elif 'circle' == name:\n                    values[\"d\"] = ellipse2pathd(values)", "                elif 'circle' == name:\n                    values[\"d\"] = rect2pathd(values)", 'SaxDocument converts circles with the rect converter'),
+ ('C17', 'benign', PA, "        x_scale = values[0]\n        y_scale = values[1] if (len(values) > 1) else x_scale\n        transform[0, 0] = x_scale\n        transform[1, 1] = y_scale", "        sx = values[0]\n        sy = sx if len(values) == 1 else values[1]\n        transform[0, 0], transform[1, 1] = sx, sy", 'rename and restructure the scale arm'),
+ ('C18', 'break', 'svg_io_sax.py', "                matrix_string += string(matrix[1][0])\n                matrix_string += \" \"\n                matrix_string += string(matrix[0][1])", "                matrix_string += string(matrix[0][1])\n                matrix_string += \" \"\n                matrix_string += string(matrix[1][0])", 'generate_dom writes the matrix row-major'),
+ ('C18', 'break', 'svg_io_sax.py', "                name = elem.tag[28:]", "                name = elem.tag[27:]", 'namespace strip length'),
+ ('C18', 'break', 'document.py', "        attribs['d'] = path_svg\n", "        attribs.setdefault('d', path_svg)\n", 'stale d wins in add_path'),
+ ('C18', 'break', 'document.py', "        return SubElement(group, '{{{0}}}path'.format(\n            SVG_NAMESPACE['svg']), attribs)", "        return SubElement(group, 'path', attribs)", 'add_path creates an un-namespaced element (F21 reverted)'),
+ ('C18', 'break', 'paths2svg.py', "                            good_attribs.update({key: val})", "                            pass", 'per-path attributes dropped'),
+ ('C18', 'break', 'svg_to_paths.py', "    paths = [dom2dict(el) for el in doc.getElementsByTagName('path')]", "    paths = [dom2dict(el) for el in reversed(doc.getElementsByTagName('path'))]", 'svg2paths reverses document order'),
+])
+
+# ---------------------------------------------------------------- C20
+SM = 'smoothing.py'
+E.extend([
+ ('C20', 'break', SM, "        b = (2 - tightness)*a\n        elbow = CubicBezier(q - a*v, q - (a - b/3)*v, q + (a - b/3)*w, q + a*w)", "        b = (2 - tightness)*a\n        elbow = CubicBezier(q - a*v, q - (a + b/3)*v, q + (a - b/3)*w, q + a*w)", 'line-line elbow control point on the wrong side'),
+ ('C20', 'break', SM, "        elbow = CubicBezier(q - a*v, q + (b/3 - a)*v, q - b/3*w, q)", "        elbow = CubicBezier(q - a*v, q + (b/3 - a)*v, q + b/3*w, q)", 'line-curve elbow arrives against the curve direction'),
+ ('C20', 'break', SM, "    max_a = maxjointsize / 2", "    max_a = maxjointsize * 2", 'joint size bound'),
+ ('C20', 'break', SM, "        seg1_trimmed = Line(elbow.end, seg1.end)", "        seg1_trimmed = Line(elbow.end, seg1.start)", 'outer end point lost'),
+ ('C20', 'break', SM, "                if idx == len(path) - 1:\n                    new_path[0] = new_seg1", "                if idx == len(path) - 1:\n                    new_path.append(new_seg1)", 'closing joint appends instead of replacing the first piece'),
+ ('C20', 'break', SM, "    if len(path) == 1:\n        return path", "    if len(path) == 1:\n        return Path(*path)", 'single segment path copied'),
+ ('C20', 'break', SM, "        elbow = elbow0 + [seg0_line_trimmed] + elbowq + [seg1_line_trimmed] + elbow1", "        elbow = elbow0 + elbowq + [seg1_line_trimmed] + elbow1", 'curve-curve elbow drops a connecting line'),
+ ('C20', 'benign', SM, "        b = (2 - tightness)*a\n        elbow = CubicBezier(q - a*v, q - (a - b/3)*v, q + (a - b/3)*w, q + a*w)", "        b = (2 - tightness)*a\n        inner = a - b/3\n        elbow = CubicBezier(q - a*v, q - inner*v, q + inner*w, q + a*w)", 'name the inner offset'),
+])
